@@ -19,6 +19,9 @@ import c12_gen as g
 from common import cstr, clist, cfloat, copt, cpair, cz, cnat
 
 THEOREMS = ['C12_expand_shorthand', 'C12_interpolates_evenly_spaced',
+            'C12_log_interpolates_constant_ratio',
+            'C12_importance_cards_single', 'C12_importance_cards_jump_refused',
+            'C12_jumped_cell_kept',
             'C12_importance_cards_max', 'C12_importance_cards_uneven_refused',
             'C12_keywords_importance', 'C12_particle_dictionary',
             'C12_option_tokens_words', 'C12_importance_of_cell',
